@@ -49,7 +49,7 @@ ASSUMPTIONS = [
     "namespaces: types; predicates+functions; actions; objects+constants; parameters and variables within one action",
 ]
 SHARD_TIMEOUT = {"quick": 600, "thorough": 3000}
-N_CASES = {"quick": 420, "thorough": 6400}
+N_CASES = {"quick": 420, "thorough": 25600}
 
 PROFILE = dict(
     object_fluents=False,
